@@ -487,6 +487,12 @@ struct Digit {
                         }
                     }
                     ///////////////////////////////////////
+                    if ((exponent >= SizeT32{100000000}) && (number.Natural != 0)) {
+                        // Nine or more exponent digits (the digit loop saturates): out of range whatever the
+                        // mantissa; do not let the ignored-digit arithmetic below bring it back into range.
+                        return QNumberType::NotANumber;
+                    }
+
                     SizeT32 e_extra_p10_power = 0;
 
                     if (!fraction_only && (start_offset != offset)) {
